@@ -66,7 +66,7 @@ def run_delegation(lib, rng, n_cases, T, rec, seed):
     cases = []
     while len(cases) < n_cases:
         c = delegation.gen_case(rng, stratum=rng.choice(["named", "named", "below", "other_role", "union", "untrusted_own", "type_confusion"]))
-        m, failed = models.delegation_verdict(c["role"], c["untrusted"], c["trusted"], c["gpg"])
+        m, failed = delegation.model_of(c)
         if m.v == models.GREY:
             continue
         cases.append((c, m))
